@@ -33,6 +33,11 @@ def weights(rng, n, kind):
         w = rng.uniform(0.2, 2.0, n)
         w[rng.random(n) < 0.15] *= -0.5
         return w
+    if kind == "mixed_mild":
+        # a weighted Monte-Carlo sample with some negative entries (NLO generators, background-subtracted efficiency samples)
+        w = rng.uniform(0.2, 2.0, n)
+        w[rng.random(n) < 0.12] *= -0.4
+        return w
     if kind == "zeros":
         w = rng.uniform(0.2, 2.0, n)
         w[rng.random(n) < 0.2] = 0.0
